@@ -259,6 +259,38 @@ fn run_malformed<F: MathFunction>(
             cols.iter().map(|c| c.len()).collect::<Vec<_>>()
         );
     }
+    // more slices than variables is allowed (tapes lose variables when they
+    // are simplified), but "any of the slices of different lengths" is still
+    // an error, also when the odd one is an extra; short lengths matter: the
+    // JIT copies every caller slice to scratch when n is below the SIMD width
+    {
+        let extra = 1 + lens[0] as usize % 3;
+        let base = lens[1 % lens.len()] as usize % 20;
+        let mut cols: Vec<Vec<f32>> = vec![vec![0.25; base]; n + extra];
+        let odd = lens[2 % lens.len()] as usize % 20;
+        let which = n + lens[3 % lens.len()] as usize % extra;
+        cols[which] = vec![0.25; odd];
+        let all_equal = odd == base;
+        let r = e.eval(&t, &cols);
+        ensure!(
+            r.is_ok() == all_equal,
+            format!("mismatched-extra-slice-{what}"),
+            "float slice eval: ok={} for {n} variables + {extra} extra slices, lengths {base} / extra #{which}: {odd}",
+            r.is_ok()
+        );
+        let gcols: Vec<Vec<Grad>> = cols
+            .iter()
+            .map(|c| c.iter().map(|v| Grad::from(*v)).collect())
+            .collect();
+        let r = eg.eval(&tg, &gcols);
+        ensure!(
+            r.is_ok() == all_equal,
+            format!("mismatched-extra-slice-{what}"),
+            "grad slice eval: ok={} for {n} variables + {extra} extra slices, lengths {base} / extra #{which}: {odd}",
+            r.is_ok()
+        );
+        cx.ev.count(if all_equal { "extra_slices_equal_cases" } else { "extra_slice_mismatched_cases" });
+    }
     // missing bound variable through the Shape API
     if roots.len() == 1 {
         let free: Vec<_> = b
@@ -444,7 +476,8 @@ impl Prop for P {
          with bounds up to +-f32::MAX x 1-9 finite points of the box (corners included) x all four evaluator kinds x \
          interpreter and JIT, each run inside a child process under catch_unwind (panic = failure, abort / segfault = worker \
          death reported with the breadcrumb input). Every returned interval must be lower <= upper or the NaN interval. \
-         Malformed cases: fewer variables than the function has, slices of unequal length, free variables missing from \
+         Malformed cases: fewer variables than the function has, slices of unequal length (among the used ones, or an \
+         extra slice beyond the function's variables), free variables missing from \
          ShapeVars - all must be reported as Err. Non-trivial = some intermediate value is infinite or NaN at a sampled \
          point, or the argument list is malformed."
     }
